@@ -895,6 +895,24 @@ def emit_bodies(out, names, outdir, raw=None):
         if b is None or not (key.startswith('system_') or key.startswith('si_')):
             continue
         sl.append('def %s : Sig := %s' % (key, bodies.parse_sig(b.get('hdr', ''), b.get('impl_out', ''), b.get('sig', ''), MARKERS, b.get('ptypes', ()))))
+    # closed-world inventory of the `impl` headers of the system / si macro files
+    try:
+        rows = bodies.collect_impls(lambda rel: read(os.environ.get('UOM_REPO', '/repo'), 'src/' + rel, 'bodies.' + rel),
+                                    ['system.rs', 'si/mod.rs', 'si/thermodynamic_temperature.rs', 'si/temperature_interval.rs',
+                                     'si/angle.rs', 'si/ratio.rs', 'si/time.rs', 'quantity.rs'])
+    except Exception as ex:     # noqa
+        raise SiteError('bodies', 'impl inventory: %s' % ex)
+    discs = []
+    for d, _m in rows:
+        if d not in discs:
+            discs.append(d)
+    sl.append('')
+    sl.append('/-! every `impl` header of src/system.rs, src/quantity.rs and the special impls of src/si: discriminator and kind-bound markers -/')
+    for i, d in enumerate(discs):
+        sl.append('def impl_%s : Nat := %d' % (d, i))
+    sl.append('def implInventory : List (Nat × List Nat) := [')
+    sl.append(',\n'.join('  (impl_%s, [%s])' % (d, ', '.join(str(MARKERS.index(m)) if m in MARKERS else '999' for m in ms)) for d, ms in rows))
+    sl.append(']')
     sl.append('')
     sl.append('end Uom.Gen.Sig')
     changed += write_if_changed(os.path.join(outdir, 'Sigs.lean'), '\n'.join(sl) + '\n')
